@@ -42,7 +42,9 @@ impl TimeWindow {
         start_time: u64,
         max_events: usize,
     ) -> Self {
-        let end_time = start_time + duration.as_millis() as u64;
+        // A window that reaches past the end of the u64 millisecond range ends there
+        let duration_ms = u64::try_from(duration.as_millis()).unwrap_or(u64::MAX);
+        let end_time = start_time.saturating_add(duration_ms);
 
         Self {
             window_type,
